@@ -863,16 +863,291 @@ impl SubCheckT for Hasher {
     }
 }
 
+// ---------------------------------------------------------------------------
+// the hasher on formulas with thousands of literal occurrences
+// ---------------------------------------------------------------------------
+
+#[derive(Clone, Debug, Serialize, Deserialize)]
+pub struct BigHasherState {
+    /// clauses left open (mapped into the clause list)
+    pub open: Vec<u16>,
+    /// the companion state opens the clauses this many literal occurrences further on (index into OFFSETS)
+    pub offset: u8,
+    /// satisfying literals are announced through decide() (else only through the model passed to hash())
+    pub via_decide: bool,
+    /// falsify one literal of the first open clause
+    pub restrict: bool,
+}
+
+#[derive(Clone, Debug, Serialize, Deserialize)]
+pub struct BigHasherCase {
+    /// number of clauses; clause i is over variables of its own
+    pub clauses: u16,
+    /// false: every clause has two literals; true: two to four literals, chosen per clause
+    pub mixed: bool,
+    pub seed: u64,
+    pub states: Vec<BigHasherState>,
+}
+
+const OFFSETS: [usize; 8] = [64, 256, 512, 1024, 2048, 4096, 1000, 1536];
+
+fn first_primes(k: usize) -> &'static [u128] {
+    static TABLE: std::sync::OnceLock<Vec<u128>> = std::sync::OnceLock::new();
+    let t = TABLE.get_or_init(|| {
+        let lim = 200_000usize;
+        let mut sieve = vec![true; lim];
+        let mut out = Vec::new();
+        for i in 2..lim {
+            if sieve[i] {
+                out.push(i as u128);
+                let mut j = i * i;
+                while j < lim {
+                    sieve[j] = false;
+                    j += i;
+                }
+            }
+        }
+        out
+    });
+    &t[..k.min(t.len())]
+}
+
+pub struct BigHasher;
+
+pub fn run_big_hasher(case: &BigHasherCase, st: &mut Stats) -> CaseResult {
+    let m = case.clauses as usize;
+    let r = |k: u64| splitmix(case.seed ^ k.wrapping_mul(0x9E37_79B9_7F4A_7C15));
+    let mut gen: Vec<Vec<Literal>> = Vec::with_capacity(m);
+    let mut next_var = 0usize;
+    for i in 0..m {
+        let x = r(i as u64);
+        let w = if case.mixed { 2 + (x >> 50) as usize % 3 } else { 2 };
+        gen.push((0..w).map(|j| Literal::new(VarLabel::new_usize(next_var + j), (x >> j) & 1 == 1)).collect());
+        next_var += w;
+    }
+    let cnf = Cnf::new(&gen);
+    let n = cnf.num_vars();
+    // clauses exactly as the hasher sees them
+    let clauses: Vec<Vec<(usize, bool)>> =
+        cnf.clauses().iter().map(|c| c.iter().map(|l| (l.label().value_usize(), l.polarity())).collect()).collect();
+    let occurrences: usize = clauses.iter().map(|c| c.len()).sum();
+    let mut occ_start: Vec<usize> = Vec::with_capacity(clauses.len());
+    {
+        let mut k = 0;
+        for c in clauses.iter() {
+            occ_start.push(k);
+            k += c.len();
+        }
+    }
+    let primes = first_primes(occurrences + 64);
+    if primes.len() < occurrences {
+        return Ok(());
+    }
+    st.bump(match occurrences {
+        0..=1024 => "bighasher.occurrences.upto_1024",
+        1025..=2048 => "bighasher.occurrences.1025_2048",
+        2049..=4096 => "bighasher.occurrences.2049_4096",
+        _ => "bighasher.occurrences.above_4096",
+    });
+    let mut h = cnf.hasher().clone();
+    // (open clause set, restrict?) -> expanded list of states
+    let mut plan: Vec<(BTreeSet<usize>, bool, bool)> = Vec::new();
+    let mut far_pairs = 0u64;
+    for s in case.states.iter() {
+        let open: BTreeSet<usize> = s.open.iter().take(3).map(|o| ((*o as usize) * clauses.len()) >> 16).collect();
+        if open.is_empty() {
+            continue;
+        }
+        plan.push((open.clone(), s.via_decide, s.restrict));
+        // the companion: every open clause replaced by the clause that starts `d` occurrences later
+        let d = OFFSETS[s.offset as usize % OFFSETS.len()];
+        let shifted: Option<BTreeSet<usize>> = open
+            .iter()
+            .map(|ci| {
+                let target = occ_start[*ci] + d;
+                occ_start.binary_search(&target).ok().filter(|cj| clauses[*cj].len() == clauses[*ci].len())
+            })
+            .collect();
+        if let Some(sh) = shifted {
+            if sh != open {
+                plan.push((sh, !s.via_decide, s.restrict));
+                far_pairs += 1;
+            }
+        }
+    }
+    let mut seen: Vec<(HashedCNF, Resid, Option<u128>, BTreeSet<(usize, usize)>)> = Vec::new();
+    for (si, (open, via_decide, restrict)) in plan.iter().enumerate() {
+        h.push();
+        let mut model: Vec<Option<bool>> = vec![None; n];
+        for (ci, c) in clauses.iter().enumerate() {
+            let x = r(0x5151 ^ ((si as u64) << 32) ^ ci as u64);
+            if open.contains(&ci) {
+                if *restrict && Some(&ci) == open.iter().next() && c.len() >= 2 {
+                    let (v, p) = c[x as usize % c.len()];
+                    model[v] = Some(!p);
+                    if *via_decide {
+                        h.decide(Literal::new(VarLabel::new_usize(v), !p));
+                    }
+                }
+                continue;
+            }
+            let k = x as usize % c.len();
+            let (v, p) = c[k];
+            model[v] = Some(p);
+            if *via_decide && (x >> 20) & 3 != 0 {
+                h.decide(Literal::new(VarLabel::new_usize(v), p));
+            }
+            for (j, (v2, _)) in c.iter().enumerate() {
+                if j != k && (x >> (24 + j)) & 1 == 1 {
+                    model[*v2] = Some((x >> (30 + j)) & 1 == 1);
+                }
+            }
+        }
+        let pm = PartialModel::from_assignments(&model);
+        let hv = h.hash(&pm);
+        h.pop();
+        let mut resid: Resid = BTreeSet::new();
+        let mut occ_now: BTreeSet<(usize, usize)> = BTreeSet::new();
+        let mut product: Option<u128> = Some(1);
+        for (ci, c) in clauses.iter().enumerate() {
+            if c.len() <= 1 || c.iter().any(|(v, p)| model[*v] == Some(*p)) {
+                continue;
+            }
+            for (li, (v, _)) in c.iter().enumerate() {
+                if model[*v].is_none() {
+                    product = product.and_then(|x| x.checked_mul(primes[occ_start[ci] + li]));
+                    occ_now.insert((ci, li));
+                }
+            }
+            resid.insert((ci, c.iter().copied().filter(|(v, _)| model[*v].is_none()).collect()));
+        }
+        st.bump("bighasher.hashed_states");
+        for (h1, r1, p1, o1) in seen.iter() {
+            if *r1 == resid {
+                ensure!(
+                    *h1 == hv,
+                    "C15/hasher-equal-residual-different-hash",
+                    "{} clauses / {} literal occurrences: two assignments leave the same residual {:?} but hash differently ({:?} vs {:?})",
+                    clauses.len(),
+                    occurrences,
+                    resid,
+                    h1,
+                    hv
+                );
+            } else if p1.is_some() && product.is_some() {
+                ensure!(
+                    *h1 != hv,
+                    "C15/hasher-equal-hash-different-residual",
+                    "{} clauses / {} literal occurrences: residuals {:?} and {:?} (prime products fit in 128 bits) hash equally: {:?}",
+                    clauses.len(),
+                    occurrences,
+                    r1,
+                    resid,
+                    hv
+                );
+                if let (Some(f1), Some(f2)) = (debug_value(h1).and_then(|x| factors_over(x, primes)), debug_value(&hv).and_then(|x| factors_over(x, primes))) {
+                    let a: BTreeSet<u128> = f1.into_iter().collect();
+                    let b: BTreeSet<u128> = f2.into_iter().collect();
+                    ensure!(
+                        a.intersection(&b).count() == o1.intersection(&occ_now).count(),
+                        "C15/hasher-value-is-not-a-product-of-one-prime-per-residual-occurrence",
+                        "{} literal occurrences: two states share {} residual occurrences but their hashes share {} prime factors",
+                        occurrences,
+                        o1.intersection(&occ_now).count(),
+                        a.intersection(&b).count()
+                    );
+                }
+            }
+        }
+        if product.is_some() {
+            match debug_value(&hv) {
+                None => st.bump("bighasher.debug_form_not_understood(value oracle skipped)"),
+                Some(x) => match factors_over(x, primes) {
+                    Some(fs) => {
+                        let distinct: BTreeSet<u128> = fs.iter().copied().collect();
+                        ensure!(
+                            distinct.len() == fs.len() && fs.len() == occ_now.len(),
+                            "C15/hasher-value-is-not-a-product-of-one-prime-per-residual-occurrence",
+                            "{} literal occurrences: the residual {:?} has {} occurrences and their prime product fits in 128 bits, but the hash {:?} factors as {:?}",
+                            occurrences,
+                            resid,
+                            occ_now.len(),
+                            hv,
+                            fs
+                        );
+                        st.bump("bighasher.values_factorised");
+                    }
+                    None => {
+                        return fail(
+                            "C15/hasher-value-is-not-a-product-of-one-prime-per-residual-occurrence",
+                            format!("{} literal occurrences: the prime product of the residual {:?} fits in 128 bits, but the hash {:?} has a factor outside the first {} primes", occurrences, resid, hv, primes.len()),
+                        )
+                    }
+                },
+            }
+        } else {
+            st.bump("bighasher.states_with_product_above_128_bits(only-if skipped)");
+        }
+        seen.push((hv, resid, product, occ_now));
+    }
+    st.add("bighasher.state_pairs_a_fixed_number_of_occurrences_apart", far_pairs);
+    if occurrences > 1024 && far_pairs >= 1 {
+        st.mark_nontrivial();
+    }
+    Ok(())
+}
+
+/// prime factors with multiplicity if x factors completely over the given primes
+fn factors_over(mut x: u128, primes: &[u128]) -> Option<Vec<u128>> {
+    if x == 0 {
+        return None;
+    }
+    let mut out = Vec::new();
+    for p in primes {
+        while x % p == 0 {
+            out.push(*p);
+            x /= p;
+        }
+        if x == 1 {
+            break;
+        }
+    }
+    if x == 1 {
+        Some(out)
+    } else {
+        None
+    }
+}
+
+impl SubCheckT for BigHasher {
+    type Case = BigHasherCase;
+    const NAME: &'static str = "hasher_many_occurrences";
+    const RULE: &'static str = "CnfHasher of 300..2300 clauses over variables of their own (two literals each, or two to four), i.e. 600..6000 literal occurrences: states that satisfy every clause but 1..3 open ones (through decide() and the model, or the model alone; optionally one literal of an open clause falsified), each paired with the state whose open clauses start 64 / 256 / 512 / 1000 / 1024 / 1536 / 2048 / 4096 occurrences further on; over all pairs of states of a case: equal residuals => equal hashes, different residuals with products within 128 bits => different hashes sharing exactly as many prime factors as residual occurrences; each exact hash value factors into one distinct prime per residual occurrence. Non-trivial: more than 1024 occurrences and at least one such pair";
+    fn cases(tier: Tier) -> u32 {
+        tier.pick(80, 1500)
+    }
+    fn strategy(_tier: Tier) -> BoxedStrategy<BigHasherCase> {
+        let state = (proptest::collection::vec(any::<u16>(), 1..=3), 0u8..8, any::<bool>(), proptest::bool::weighted(0.3))
+            .prop_map(|(open, offset, via_decide, restrict)| BigHasherState { open, offset, via_decide, restrict });
+        (prop_oneof![1 => 300u16..=520, 5 => 521u16..=1100, 3 => 1101u16..=2300], proptest::bool::weighted(0.4), any::<u64>(), proptest::collection::vec(state, 1..=4))
+            .prop_map(|(clauses, mixed, seed, states)| BigHasherCase { clauses, mixed, seed, states })
+            .boxed()
+    }
+    fn run(case: &BigHasherCase, st: &mut Stats) -> CaseResult {
+        run_big_hasher(case, st)
+    }
+}
+
 #[allow(dead_code)]
 fn _tt(_: Tt) {}
 
 pub fn property() -> Property {
     Property {
         id: "C15",
-        subs: vec![sub::<CnfUtil>(), sub::<Small>(), sub::<Models>(), sub::<Hasher>()],
+        subs: vec![sub::<CnfUtil>(), sub::<Small>(), sub::<Models>(), sub::<Hasher>(), sub::<BigHasher>()],
         fuzz: vec![],
         assumptions: vec![
-            "CNFs over <= 7 variables; exact small-integer weights",
+            "CNFs over <= 7 variables; exact small-integer weights; the hasher additionally on formulas of 300..2300 clauses over disjoint variables (600..6000 literal occurrences; CnfHasher::new is quadratic, larger formulas are out of a run's budget)",
             "hash(m) is only compared for assignments m that contain every decision in effect and falsify no clause, as the statement requires",
             "residual identity is occurrence-level (one prime per literal occurrence); 'only then' is asserted for pairs of states whose products of residual-occurrence primes both fit in 128 bits",
         ],
